@@ -31,17 +31,18 @@ Proof. exact (failed_inc_bounded gen_supersedes gen_sup_spec). Qed.
 (* Clauses 2 and 3 again, one layer up: the GossipMembershipManager message layer (Mgr.v) -- handle_gossip
    (Sync with the incarnation-delta filter and the sender-is-alive mark, Suspect incl. self-refutation,
    Alive, PingReq/PingAck), gossip_round with suspicion expiry, suspect_node -- for a cluster of R managers
-   and every schedule of rounds, local suspicions and deliveries (any order, duplication, loss), for every
-   max_incarnation_delta and both expiry settings. *)
+   (manager i starting out with any list pf i of registered peers) and every schedule of rounds, local suspicions,
+   add_peer calls and deliveries (any order, duplication, loss), for every max_incarnation_delta and both expiry
+   settings. *)
 Theorem C17_manager_never_backwards : forall maxd expire ops s r,
   clock (lww (nth_mgr (mgrs s) r)) <= clock (lww (nth_mgr (mgrs (mrun gen_supersedes maxd expire s ops)) r)) /\
   inc_le (lww (nth_mgr (mgrs s) r)) (lww (nth_mgr (mgrs (mrun gen_supersedes maxd expire s ops)) r)).
 Proof. exact (mrun_mono gen_supersedes gen_sup_spec). Qed.
 
-Theorem C17_manager_failed_inc_bounded : forall maxd expire R ops r m e,
-  get (lww (nth_mgr (mgrs (mrun gen_supersedes maxd expire (minit gen_supersedes R) ops)) r)) m = Some e ->
+Theorem C17_manager_failed_inc_bounded : forall maxd expire R pf ops r m e,
+  get (lww (nth_mgr (mgrs (mrun gen_supersedes maxd expire (minitP gen_supersedes R pf) ops)) r)) m = Some e ->
   health e = 2 ->
-  inc e <= myinc (nth_mgr (mgrs (mrun gen_supersedes maxd expire (minit gen_supersedes R) ops)) m).
+  inc e <= myinc (nth_mgr (mgrs (mrun gen_supersedes maxd expire (minitP gen_supersedes R pf) ops)) m).
 Proof. exact (mgr_failed_inc_bounded gen_supersedes). Qed.
 
 (* non-vacuity: a two-manager schedule after which manager 0 records member 1 as Failed, and one in which
